@@ -60,7 +60,7 @@ def _child(argv, cwd, env, out_path, err_path, stdin_path, opts):
             os.close(pr_)
             os.dup2(pw_, fdn)
             os.close(pw_)
-    if opts.get("block_sigchld"):
+    if opts.get("block_sigchld") or (opts.get("proc") or {}).get("block_sigchld"):
         # started by a supervisor that keeps SIGCHLD blocked: the signal mask is inherited across fork and exec
         signal.pthread_sigmask(signal.SIG_BLOCK, {signal.SIGCHLD})
     sys.stdin = os.fdopen(0, "r", closefd=False)
